@@ -11,7 +11,7 @@
                and outcome (what a fresh driver loaded) is a sum of 1 = pre, 2 = post, 4 = empty store, 8 = other, 16 = failure.
    bad_trace / bad_states / bad_load: cases where the model regenerated from json.py (save_prog, load_prog) differs from
    what the implementation did;  bad_spec: cases where the implementation contradicts the specification oracle. *)
-From QT Require Export C08.Spec.
+From QT Require Export C08.Spec C08.Framing.
 From QT Require Import Gen.C08Gen.
 Open Scope Z_scope.
 
@@ -87,3 +87,6 @@ Definition bad_trace (cases : list case) : list nat := mismatches trace_ok cases
 Definition bad_states (cases : list case) : list nat := mismatches states_ok cases 0.
 Definition bad_load (cases : list case) : list nat := mismatches load_ok cases 0.
 Definition bad_spec (cases : list case) : list nat := mismatches case_spec_ok cases 0.
+
+(* payloads written by the real driver that are NOT closed exactly at their last byte (framing premise, Framing.v) *)
+Definition bad_frame (payloads : list bytes) : list nat := mismatches (closed_at_end json_depth) payloads 0.
